@@ -135,10 +135,55 @@ func Any() VP { return func(ssa.Value) bool { return true } }
 
 // Load matches a load of the given field (any base object).
 func Load(f *types.Var) VP {
-	return func(v ssa.Value) bool {
+	var vp VP
+	vp = func(v ssa.Value) bool {
 		g, _ := loadedField(v)
-		return g != nil && g == f.Origin()
+		if g != nil && g == f.Origin() {
+			return true
+		}
+		return throughParam(v, vp)
 	}
+	return vp
+}
+
+// throughParam: v is a parameter of an unexported function (a helper) and the argument passed for it at every
+// static call site matches vp — so that extracting a few lines into a private helper does not hide a value.
+func throughParam(v ssa.Value, vp VP) bool {
+	prm, ok := stripConv(v).(*ssa.Parameter)
+	if !ok || gProg == nil {
+		return false
+	}
+	fn := prm.Parent()
+	obj := funcObj(fn)
+	if obj == nil || obj.Exported() || fn.Parent() != nil {
+		return false
+	}
+	idx := -1
+	for i, q := range fn.Params {
+		if q == prm {
+			idx = i
+		}
+	}
+	if idx < 0 {
+		return false
+	}
+	sites := gProg.CallSites(obj)
+	if len(sites) == 0 {
+		return false
+	}
+	for _, cs := range sites {
+		ci, ok := cs.Instr.(ssa.CallInstruction)
+		if !ok || ci.Common().IsInvoke() || cs.Kind == "value" || idx >= len(ci.Common().Args) {
+			return false
+		}
+		if cs.Fn == fn {
+			continue // recursion
+		}
+		if !vp(ci.Common().Args[idx]) {
+			return false
+		}
+	}
+	return true
 }
 
 // LoadPath matches a load of field path f1.f2...fn (e.g. c.config.X).
